@@ -107,9 +107,12 @@ Lemma example_ok :
   wimpl wq_ok = true /\ List.length (wspec wds1 wq_ok) = 3%nat.
 Proof. vm_compute. repeat split; reflexivity. Qed.
 
-(* the witness of C01-group-by-without-aggregate on the model: finalize_select does not group when no aggregate is projected *)
+(* regression for the repaired C01-group-by-without-aggregate: three solutions in two groups; finalize_select now returns
+   the algebra's two rows (before bc03712 - eaggregate false - it returned three) *)
 Definition wsel_gb : sel := Sel false (Some [PVar 0%N]) (PGroup [PBgp [(TV 0%N, TC (E "p3"), TV 1%N)]]) [0%N] [] None.
 Definition wrows_gb : list mu := [[(0%N, E "s1"); (1%N, "1")]; [(0%N, E "s1"); (1%N, "2")]; [(0%N, E "s2"); (1%N, "3")]].
-Lemma refuted_gb :
-  List.length (finalize_select wsel_gb wrows_gb) = 3%nat /\ List.length (render (columns wsel_gb) (modifiers wsel_gb wrows_gb)) = 2%nat.
-Proof. vm_compute. split; reflexivity. Qed.
+Lemma group_by_regression :
+  finalize_select wsel_gb wrows_gb = render (columns wsel_gb) (modifiers wsel_gb wrows_gb) /\
+  List.length (finalize_select wsel_gb wrows_gb) = 2%nat /\
+  List.length (eaggregate false (Some [PVar 0%N]) [0%N] wrows_gb) = 3%nat.
+Proof. vm_compute. repeat split; reflexivity. Qed.
